@@ -13,9 +13,9 @@ from . import fold, peval, reference as ref
 from .fold import TOP, mk_enum, to_py
 from .rules_tables import anchor_fn, where_fn, VERSION, ECL, MASK, MTYPE
 
-QUICK_PLACE_VERSIONS = list(range(1, 11)) + [14, 21, 27]  # all alignment-grid shapes up to 4x4, version info, both count classes
+QUICK_PLACE_VERSIONS = list(range(1, 11)) + [14, 21, 27, 40]  # all alignment-grid shapes up to 4x4, version info, both count classes; the largest symbol (every index width)
 QUICK_TERM_VERSIONS = [1, 2, 3, 4, 5, 6, 39, 40]  # smallest sizes plus the two largest (the synthetic border rows are 177 long)
-QUICK_MASK_VERSIONS = list(range(1, 11))  # sizes 21..57: every residue of the size modulo 2, 3, 6 and 12 occurs
+QUICK_MASK_VERSIONS = list(range(1, 11)) + [25, 40]  # sizes 21..57: every residue of the size modulo 2, 3, 6 and 12 occurs; V25/V40: every coordinate up to 177 (beyond 64 and 128), different alignment grids
 _G = {}
 
 
@@ -40,11 +40,35 @@ def _grid(pe, qr_val):
     return {"size": size, "cells": cells, "default": d, "len": n}
 
 
-def _job(v):
-    """everything geometry-related for one version, in a worker process"""
+_RM = {}
+
+
+def _region_cache(v):
+    if v not in _RM:
+        _RM[v] = ref.region_map(v)
+    return _RM[v]
+
+
+def _job(job):
+    """everything geometry-related for one version (or, for a large version, one part of it: see _run_jobs), in a worker process"""
     f = _G["facts"]
     want = _G["want"]
-    out = {"v": v}
+    if isinstance(job, tuple):
+        v, part = job
+        want = dict(want)
+        if part == "base":
+            want.pop("masks", None)
+            want.pop("place", None)
+        elif part == "place":
+            want.pop("masks", None)
+            want.pop("format", None)
+        else:
+            want.pop("place", None)
+            want.pop("format", None)
+            only_masks = [part[1]]
+    else:
+        v, part = job, None
+    out = {"v": v, "part": part}
     pe = peval.PEval(f)
     r = pe.call("default::create_matrix", [mk_enum(VERSION, "V%02d" % v)])
     out["blank_status"] = (r.kind, r.why)
@@ -70,6 +94,32 @@ def _job(v):
             diff = {i: b for i, b in g2["cells"].items() if g["cells"].get(i, g["default"]) != b or i not in g["cells"]}
             # every cell the writer stored into, including stores of an unchanged value
             res[(l, mk)] = {"status": ("ret", None), "after": g2["cells"], "diff": diff}
+            # the writer runs after placement (and possibly after masking): the same on a symbol whose encoding region is dark, and
+            # on one with a dark/light chequered encoding region - what it writes must not depend on the data modules around it
+            for vname, pred in (("dark", lambda r_, c_: True), ("chequered", lambda r_, c_: (r_ + c_) % 2 == 0)):
+                q3 = _qr_with_clone(pe, qr)
+                h3 = q3[4][0]
+                n_ = g["size"]
+                rm = _region_cache(v)
+                base = {}
+                for (r_, c_), (reg, _val) in rm.items():
+                    if reg == ref.DATA and pred(r_, c_):
+                        i = r_ * n_ + c_
+                        b = g["cells"].get(i, g["default"])
+                        if isinstance(b, int):
+                            base[i] = b | 1
+                            pe.heap.put(h3, i, ("adt", "module::Module", 0, "Module", (fold.mk_int("u8", b | 1),)))
+                pe.calls_seen = {}
+                r3 = pe.run("default::create_matrix_format_info", [("cell", 0), mk_enum(ECL, l), mk_enum(MASK, mk)], cells=[q3])
+                if r3.kind != "ret":
+                    res[(l, mk)][vname] = {"status": (r3.kind, r3.why)}
+                    continue
+                g3 = _grid(pe, r3.cells[0])
+                if g3 is None:
+                    res[(l, mk)][vname] = {"status": ("top", "result is not a known matrix")}
+                    continue
+                d3 = {i: b for i, b in g3["cells"].items() if base.get(i, g["cells"].get(i, g["default"])) != b}
+                res[(l, mk)][vname] = {"status": ("ret", None), "after": g3["cells"], "diff": d3}
         out["format"] = res
     if "place" in want and v in want["place"]:
         q2 = _qr_with_clone(pe, qr)
@@ -93,7 +143,7 @@ def _job(v):
         for i in range(n_ * n_):
             b = g["cells"].get(i, g["default"])
             pe.heap.put(hb, i, ("adt", "module::Module", 0, "Module", (("tagint", "u8", b & ~1, (i // n_, i % n_, bool(b & 1))),)))
-        for mk in ref.MASKS:
+        for mk in (ref.MASKS if part is None else only_masks):
             q2 = _qr_with_clone(pe, base)
             pe.calls_seen = {}
             r2 = pe.run("datamasking::mask", [("cell", 0), mk_enum(MASK, mk)], cells=[q2])
@@ -125,11 +175,37 @@ def _run_jobs(f, versions, want):
     if n <= 1:
         return [_job(v) for v in versions]
     ctx = multiprocessing.get_context("fork")
-    # largest versions first so the pool drains evenly
-    order = sorted(versions, reverse=True)
+    # largest versions first so the pool drains evenly; a large version is split into independent parts (the blank symbol with
+    # the format writer, the placement, one job per mask sweep) so that no single job dominates the wall time
+    jobs = []
+    for v in sorted(versions, reverse=True):
+        heavy = v > 12 and (("masks" in want and v in want["masks"]) or ("place" in want and v in want["place"]))
+        if not heavy:
+            jobs.append(v)
+            continue
+        jobs.append((v, "base"))
+        if "place" in want and v in want["place"]:
+            jobs.append((v, "place"))
+        if "masks" in want and v in want["masks"]:
+            jobs += [(v, ("mask", mk)) for mk in ref.MASKS]
+    jobs.sort(key=lambda j: -(j if not isinstance(j, tuple) else j[0] * (1 if j[1] != "base" else 0.2)))
     with ctx.Pool(n) as pool:
-        res = pool.map(_job, order, chunksize=1)
-    return sorted(res, key=lambda r: r["v"])
+        res = pool.map(_job, jobs, chunksize=1)
+    merged = {}
+    for r in res:
+        if r["part"] in (None, "base"):
+            merged[r["v"]] = r
+    for r in res:
+        if r["part"] in (None, "base"):
+            continue
+        m = merged[r["v"]]
+        if "place" in r:
+            m["place"] = r["place"]
+        if "masks" in r:
+            m.setdefault("masks", {}).update(r["masks"])
+        if r["blank_status"][0] != "ret" and m["blank_status"][0] == "ret":
+            m["blank_status"] = r["blank_status"]
+    return sorted(merged.values(), key=lambda r: r["v"])
 
 
 def _format_combos_quick(v):
@@ -391,10 +467,13 @@ def c04_r3(ctx, f, rid="C04.R3", only_outside=False):
             problems = []
             # (a) every ISO position holds its bit, labelled format
             for p, k in sorted(where_bit.items()):
-                if only_outside:
-                    break
                 lab, got = dec(after.get(p[0] * n + p[1], g["default"]))
                 exp = bool((word >> k) & 1)
+                if only_outside:
+                    # the outside clause: whatever the writer leaves at a format position is a format-labelled (function) module
+                    if lab != ref.FORMAT:
+                        problems.append(("label at %s" % _relp(p, n), ref.FORMAT, lab))
+                    continue
                 if lab != ref.FORMAT or got is not exp:
                     problems.append(("bit %d at %s" % (k, _relp(p, n)), (ref.FORMAT, exp), (lab, got)))
             # (b) nothing else differs from the blank symbol
@@ -402,6 +481,30 @@ def c04_r3(ctx, f, rid="C04.R3", only_outside=False):
                 p = (i // n, i % n)
                 if p not in where_bit:
                     problems.append(("store outside the format positions at %s" % _relp(p, n), dec(_cell(g, p[0], p[1])), dec(b)))
+            for vname in ("dark", "chequered"):
+                rv = r.get(vname)
+                if rv is None:
+                    continue
+                if rv["status"][0] == "diverge":
+                    problems.append(("panics when the encoding region is %s" % vname, "no panic", rv["status"][1]))
+                    continue
+                if rv["status"][0] != "ret":
+                    und.add("with a %s encoding region: %s" % (vname, rv["status"][1]), inst)
+                    continue
+                for p, k in sorted(where_bit.items()):
+                    lab, got = dec(rv["after"].get(p[0] * n + p[1], g["default"]))
+                    exp = bool((word >> k) & 1)
+                    if only_outside:
+                        if lab != ref.FORMAT:
+                            problems.append(("label at %s when the encoding region is %s" % (_relp(p, n), vname), ref.FORMAT, lab))
+                        continue
+                    if lab != ref.FORMAT or got is not exp:
+                        problems.append(("bit %d at %s when the encoding region is %s" % (k, _relp(p, n), vname), (ref.FORMAT, exp), (lab, got)))
+                for i, b in sorted(rv["diff"].items()):
+                    p = (i // n, i % n)
+                    if p not in where_bit:
+                        problems.append(("store outside the format positions at %s when the encoding region is %s" % (_relp(p, n), vname),
+                                         "unchanged", dec(b)))
             if not problems:
                 ctx.ok(rid, "%s: word %s at both copies, 30 positions, nothing else touched" % (inst, format(word, "015b")))
             else:
@@ -1482,6 +1585,15 @@ def _encode_concrete(cfg):
 def _encode_configs(tier):
     cfgs = []
     small = list(range(0, 8))
+    # every payload length from empty to capacity on small symbols (every residue of the length and of the free space after the
+    # payload, modulo anything up to the symbol's capacity)
+    every = [(v, l) for v in (1, 2, 3) for l in ref.LEVELS] + [(5, "L")]
+    if tier == "thorough":
+        every = [(v, l) for v in range(1, 9) for l in ref.LEVELS]
+    for mode in ref.MODES:
+        for v, l in every:
+            for n in range(ref.capacity(v, l, mode) + 1):
+                cfgs.append((mode, v, l, n))
     if tier == "thorough":
         vs = list(range(1, 41))
         for mode in ref.MODES:
@@ -1504,6 +1616,18 @@ def _encode_configs(tier):
                     for n in (cap - 2, cap - 1, cap):
                         if n >= 0:
                             cfgs.append((mode, v, l, n))
+            # long payloads: lengths around every power of two from 2^8 to 2^12 (narrowed counters, casts, shifted widths) in the
+            # smallest version that holds them, the full capacity of the largest symbol at every level, and the capacity on both
+            # sides of the two count-width class boundaries
+            for p in (8, 9, 10, 11, 12):
+                for n in ((1 << p) - 1, 1 << p, (1 << p) + 1):
+                    v = next((v for v in range(1, 41) if ref.capacity(v, "L", mode) >= n), None)
+                    if v is not None:
+                        cfgs.append((mode, v, "L", n))
+            for l in ref.LEVELS:
+                cfgs.append((mode, 40, l, ref.capacity(40, l, mode)))
+            for v in (9, 10, 26, 27):
+                cfgs.append((mode, v, "M", ref.capacity(v, "M", mode)))
     return sorted(set(cfgs))
 
 
@@ -1517,13 +1641,14 @@ def c06_r2(ctx, f, rid="C06.R2"):
         return None
     _G["facts"] = f
     cfgs = _encode_configs(ctx.tier)
-    ctx.subset(rid, "encoders evaluated on %d (mode, version, level, length) cells: a sample of lengths (all residues, both ends of the "
-                    "capacity) - the space of lengths is not enumerated" % len(cfgs))
+    ctx.subset(rid, "encoders evaluated on %d (mode, version, level, length) cells: every length 0..capacity on small symbols (quick: V01-V03 "
+                    "at every level and V05-L; thorough: V01-V08), lengths around 2^8..2^12, the capacity of every level of V40 and of "
+                    "the count-width class boundaries - the lengths of larger symbols are not enumerated" % len(cfgs))
     # longest first
     order = sorted(cfgs, key=lambda c: -(ref.total_codewords(c[1]) + c[3]))
     mp = multiprocessing.get_context("fork")
     with mp.Pool(min(16, os.cpu_count() or 1)) as pool:
-        res = pool.map(_encode_job, order, chunksize=4)
+        res = pool.map(_encode_job, order, chunksize=8)
     groups = _Groups()
     und = _Und()
     n_ok = 0
